@@ -41,6 +41,11 @@ def run(ctx, rep):
         import traceback; traceback.print_exc()
         rep.fail("R19.7", "engine", "thin polyline analysis crashed: %r" % (e,), status="undecided")
     try:
+        skeleton_edge(prog, rep)
+    except Exception as e:
+        import traceback; traceback.print_exc()
+        rep.fail("R19.8", "engine", "skeleton analysis crashed: %r" % (e,), status="undecided")
+    try:
         vertex_sort(prog, rep)
     except Exception as e:
         import traceback; traceback.print_exc()
@@ -556,6 +561,7 @@ def thin_polyline_pixels(prog, rep):
     def from_points(t):
         return any(isinstance(x, tuple) and x[0] == "call" and x[1].endswith("::next") and PTS in x[1] for x in walk(t))
     n, bad, und = 0, [], []
+    dropped = []
     for f in sorted(fns, key=lambda f: f.id):
         item_param = None
         if f.kind == "closure":
@@ -571,6 +577,14 @@ def thin_polyline_pixels(prog, rep):
                                         and any(isinstance(y, tuple) and y[0] == "call" and y[1].endswith("PointsIter>::points") and "polyline" in y[1] for y in walk(x[3][0]))
                                         and any(isinstance(y, tuple) and y[0] == "agg" and isinstance(y[1], str) and y[1] == "closure:" + f.id for y in walk(x[3][1]))):
                                     mapped = True
+                                    # every point must reach the closure: between points() and the closure only
+                                    # adaptors that pass all items on
+                                    src_ = strip_refs(x[3][0])
+                                    while src_[0] == "call" and not (src_[1].endswith("PointsIter>::points") and "polyline" in src_[1]) and src_[3]:
+                                        ad = src_[1].split("::")[-1]
+                                        if ad not in ("into_iter", "by_ref", "iter", "copied", "cloned", "inspect", "peekable", "fuse"):
+                                            dropped.append("%s: the points of the polyline pass through `%s` before they are drawn" % (root.path.split("polyline::styled::")[-1], ad))
+                                        src_ = strip_refs(src_[3][0])
                     break
                 except Unsupported:
                     continue
@@ -598,6 +612,7 @@ def thin_polyline_pixels(prog, rep):
                     exact = (pt[0] == "payload" and strip_refs(pt[1])[0] == "call" and PTS in strip_refs(pt[1])[1]) or (item_param and pt[0] == "param" and pt[1] == item_param)
                     if not exact:
                         bad.append("%s builds the pixel at %s" % (f.path.split("polyline::styled::")[-1], show(pt, maxd=4)))
+    bad += sorted(set(dropped))
     rep.floor("R19.7", "pixels built from polyline::Points items", n, 2)
     if und and not bad:
         rep.fail("R19.7", "thin-polyline", "; ".join(und[:2]), status="undecided")
@@ -605,3 +620,34 @@ def thin_polyline_pixels(prog, rep):
         first = fns[0] if fns else None
         rep.check(not bad, "R19.7", "thin-polyline", "the pixels of a one-pixel polyline must be the items of Polyline::points() themselves (they are already translated): %s" % "; ".join(sorted(set(bad))[:3]),
                   at=first.span if first else "", fn=first.path if first else "", detail={"functions": len(fns), "pixel sites": n})
+
+
+def skeleton_edge(prog, rep):
+    """R19.8 a one-pixel stroke of a triangle / polyline is rasterised edge by edge from the first to the second vertex of
+    each edge in vertex order: the skeleton case of ThickSegment::intersection intersects the row with exactly one line,
+    `edges().0` (the edge on the stroke's reference side, running start -> end).  Bresenham is not symmetric under
+    reversal at exact ties, so taking the coinciding second edge (which runs the other way) changes outline pixels."""
+    TS = "embedded_graphics::primitives::common::thick_segment::ThickSegment"
+    try:
+        f = prog.method1(TS, "intersection", None)
+    except Exception as e:
+        rep.fail("R19.8", "ThickSegment::intersection", "anchor lost: %s" % e, status="undecided")
+        return
+    try:
+        summs = Paths(prog, inline=lambda g: prog.is_new(g), local_effects=True).of(f)
+    except Unsupported as e:
+        rep.fail("R19.8", "ThickSegment::intersection", "cannot summarise: %s" % e, status="undecided", at=f.span, fn=f.path)
+        return
+    from mirq.paths import show_fact
+    bad, n = [], 0
+    for sm in summs:
+        sk = [fc[0] == "true" for fc in sm.facts if fc[0] in ("true", "false") and strip_refs(fc[1])[0] == "call" and strip_refs(fc[1])[1].endswith("::is_skeleton")]
+        if not sk or not all(sk):
+            continue
+        n += 1
+        lines = [strip_refs(e[1][3][1]) for e in sm.effects if e[0] == "call" and e[1][1].split("::")[-1] == "bresenham_intersection" and len(e[1][3]) == 2]
+        want = ("field", ("call", "*ThickSegment::edges", "_", (P(1, "self"),)), 0)
+        if len(lines) != 1 or match(lines[0], want) is None:
+            bad.append("the skeleton path [%s] intersects %s" % ("; ".join(show_fact(x)[:50] for x in sm.facts[:3]), "; ".join(show(l, maxd=4) for l in lines) or "nothing"))
+    rep.check(not bad and n >= 1, "R19.8", "ThickSegment::intersection:skeleton", "a one-pixel edge must be intersected as edges().0 (start -> end) on every skeleton path: %s" % ("; ".join(bad[:2]) or "no skeleton path found"),
+              at=f.span, fn=f.path, detail={"skeleton_paths": n})
